@@ -21,49 +21,11 @@ Proof.
   repeat split. intros p Hp. cbn in Hp. repeat (destruct Hp as [<-|Hp]; [reflexivity|]). destruct Hp.
 Qed.
 
-(* createGasConfig: decode section, zero check, decode section, zero check — nothing else can reject *)
-Example C16_pinned_create_gas_config :
-  create_gas_config_body = [
-    "baseOps := &vmcommon.BaseOperationCost{}";
-    "err := mapstructure.Decode(gasMap[vmcommon.BaseOperationCostString],baseOps)";
-    "if err != nil"; "{"; "return nil,err"; "}";
-    "err = check.ForZeroUintFields(*baseOps)";
-    "if err != nil"; "{"; "return nil,err"; "}";
-    "builtInOps := &vmcommon.BuiltInCost{}";
-    "err = mapstructure.Decode(gasMap[vmcommon.BuiltInCostString],builtInOps)";
-    "if err != nil"; "{"; "return nil,err"; "}";
-    "err = check.ForZeroUintFields(*builtInOps)";
-    "if err != nil"; "{"; "return nil,err"; "}";
-    "gasCost := vmcommon.GasCost{BaseOperationCost:*baseOps,BuiltInCost:*builtInOps}";
-    "return &gasCost,nil" ]%string.
-Proof. reflexivity. Qed.
-
-(* GasScheduleChange: a rejected schedule returns before any assignment; an accepted one is stored and
-   handed to SetNewGasConfig of every key of the container *)
-Example C16_pinned_gas_schedule_change :
-  gas_schedule_change_body = [
-    "newGasConfig,err := createGasConfig(gasSchedule)";
-    "if err != nil"; "{"; "return"; "}";
-    "b.gasConfig = newGasConfig";
-    "for key, := range b.builtInFunctions.Keys()"; "{";
-    "builtInFunc,errGet := b.builtInFunctions.Get(key)";
-    "if errGet != nil"; "{"; "return"; "}";
-    "builtInFunc.SetNewGasConfig(b.gasConfig)";
-    "}" ]%string.
-Proof. reflexivity. Qed.
-
-Example C16_pinned_zero_check :
-  for_zero_uint_fields_body = [
-    "v := reflect.ValueOf(arg)";
-    "for i := 0; i < v.NumField(); i++"; "{";
-    "field := v.Field(i)";
-    "if field.Kind() != reflect.Uint64 && field.Kind() != reflect.Uint32 && field.Kind() != reflect.Uint"; "{"; "continue"; "}";
-    "if field.Uint() == 0"; "{";
-    "name := v.Type().Field(i).Name";
-    "return fmt.Errorf('gas cost for operation %s has been set to 0 or is not set',name)";
-    "}"; "}";
-    "return nil" ]%string.
-Proof. reflexivity. Qed.
+(* The bodies of createGasConfig, GasScheduleChange and check.ForZeroUintFields are NOT pinned verbatim (they were, until a blind
+   behaviour-preserving refactoring of factory.go raised an alarm: the property does not fix their source text).  What they DO is tied
+   by the correspondence run of this check: acceptance of ~hundreds of schedule maps (every field zero / missing in turn, missing /
+   empty / nil sections, case variants, values near 2^64) by the real factory vs. create_gas_config, and the charge in force after
+   sequences of accepted and rejected changes vs. in_force. *)
 
 (* the own field of each of the 15 priced functions (the 16th field, ESDTNFTChangeCreateOwner, prices nothing) *)
 Example C16_pinned_own_fields : forall g,
